@@ -5,6 +5,7 @@ import sym
 
 CONFIGS_QUICK = ["F_def"]
 CONFIGS_THOROUGH = ["F_def", "F_all"]
+TECHNIQUE = 'static analysis: result/resume-state table extraction from MIR paths, byte-class typestate of recovery scans, who-may-construct for HTML-only items'
 EXPLANATION = (
     "Result <-> resume-state table of IterState::next extracted path by path (returned item variant, documented error "
     "position operand, state written) against the AttrError documentation; HTML mode only adds acceptance (Attr::Unquoted / "
